@@ -134,11 +134,14 @@ pub enum MetaVal {
 
 #[derive(Clone, Debug)]
 pub enum Directive {
-    Withdrawal { from: usize, amount: Q, redeemer: bool },
+    /// `compound`: the amount is written `<q> + <zz-param>` - a parameter (always 0) that occurs nowhere
+    /// but inside the expression of this directive field
+    Withdrawal { from: usize, amount: Q, redeemer: bool, compound: Option<String> },
     PlutusWitness { version: u8, script: Vec<u8>, script_param: Option<String> },
     /// index into a small catalogue of native scripts (see `native_script`)
     NativeWitness(u8),
-    Donation(Q),
+    /// coin: <q> (or `<q> + 0`: the parameter sits inside an expression of the directive field)
+    Donation(Q, Option<String>),
     VoteDeleg { drep: Vec<u8>, stake: usize },
     Publish { to: usize, amount: Q, version: Option<u8> },
 }
@@ -334,7 +337,7 @@ impl Program {
             s.push_str("\ntype RecM {\n    m: Map<Int, Int>,\n}\n");
         }
         if self.has_misc {
-            s.push_str("\ntype Alias0 = Int;\n\ntype Inner {\n    x: Alias0,\n    y: Bytes,\n}\n\ntype Var3 {\n    Plain,\n    Named {\n        p: Int,\n        fq: Bool,\n    },\n}\n\ntype Outer {\n    n: Int,\n    inner: Inner,\n    v: Var3,\n    items: List<Inner>,\n    tags: Map<Bytes, Int>,\n    flag: Bool,\n    s: Bytes,\n}\n");
+            s.push_str("\ntype Alias0 = Int;\n\ntype Inner {\n    x: Alias0,\n    y: Bytes,\n}\n\ntype Var3 {\n    Plain,\n    Named {\n        p: Int,\n        fq: Bool,\n    },\n}\n\ntype Holder {\n    v: AnyAsset,\n}\n\ntype Outer {\n    n: Int,\n    inner: Inner,\n    v: Var3,\n    items: List<Inner>,\n    tags: Map<Bytes, Int>,\n    flag: Bool,\n    s: Bytes,\n}\n");
         }
         if self.has_act {
             s.push_str("\ntype Act {\n");
@@ -496,6 +499,11 @@ impl Program {
                         ),
                         1 => "Var3::Plain {}".to_string(),
                         2 => format!("Var3::Named {{ p: {}, fq: {fl}, }}", pq(q)),
+                        4 => match self.tokens.first() {
+                            // an asset expression as a datum field (the quantity is the value under test)
+                            Some(tk) => format!("Holder {{ v: {}({}), }}", tk.ident, pq(q)),
+                            None => format!("Holder {{ v: Ada({}), }}", pq(q)),
+                        },
                         _ => format!("Inner {{ x: 0 - {}, y: concat({bs}, 0xAB), }}", pq(q)),
                     };
                     s.push_str(&format!("        datum: {},\n", text));
@@ -559,10 +567,11 @@ impl Program {
         }
         for d in &tx.directives {
             match d {
-                Directive::Withdrawal { from, amount, redeemer } => s.push_str(&format!(
-                    "    cardano::withdrawal {{\n        from: {},\n        amount: {},\n{}    }}\n",
+                Directive::Withdrawal { from, amount, redeemer, compound } => s.push_str(&format!(
+                    "    cardano::withdrawal {{\n        from: {},\n        amount: {}{},\n{}    }}\n",
                     self.parties[*from].name,
                     pq(amount),
+                    match compound { Some(z) => format!(" + {z}"), None => String::new() },
                     if *redeemer { "        redeemer: (),\n" } else { "" }
                 )),
                 Directive::PlutusWitness { version, script, script_param } => s.push_str(&format!(
@@ -577,9 +586,10 @@ impl Program {
                     "    cardano::native_witness {{\n        script: 0x{},\n    }}\n",
                     hex::encode(native_script(*k))
                 )),
-                Directive::Donation(q) => s.push_str(&format!(
-                    "    cardano::treasury_donation {{\n        coin: {},\n    }}\n",
-                    pq(q)
+                Directive::Donation(q, compound) => s.push_str(&format!(
+                    "    cardano::treasury_donation {{\n        coin: {}{},\n    }}\n",
+                    pq(q),
+                    match compound { Some(z) => format!(" + {z}"), None => String::new() }
                 )),
                 Directive::VoteDeleg { drep, stake } => s.push_str(&format!(
                     "    cardano::vote_delegation_certificate {{\n        drep: 0x{},\n        stake: {},\n    }}\n",
@@ -867,7 +877,8 @@ fn gen_tx(t: &mut Tape, cfg: &GenCfg, p: &mut Program, k: usize) -> TxSpec {
         tx.inputs.push(InputSpec {
             // blocks are resolved in name order, and the collateral query is always called
             // "collateral": names sort before and after it
-            name: format!("{}{}", *t.pick(&["in", "a", "src", "zed", "b"]), i),
+            // (no name that a parameter could also get: parameters are `<hint><n>` with hints such as a, b, q)
+            name: format!("{}{}", *t.pick(&["in", "ax", "src", "zed", "bx"]), i),
             many: t.chance(1, 3),
             from: if has_from { Some(from) } else { None },
             ref_param,
@@ -957,12 +968,26 @@ fn gen_tx(t: &mut Tape, cfg: &GenCfg, p: &mut Program, k: usize) -> TxSpec {
                 from: t.index(np),
                 amount: q,
                 redeemer: t.chance(1, 2),
+                compound: if t.chance(1, 3) {
+                    let z = format!("zz{}", params.len());
+                    params.push((z.clone(), Ty::Int));
+                    Some(z)
+                } else {
+                    None
+                },
             });
         }
         if t.chance(1, 8) {
             let q = small_q(t, &mut params, "d");
             donated.push(q.clone());
-            tx.directives.push(Directive::Donation(q));
+            let z = if t.chance(1, 3) {
+                let z = format!("zz{}", params.len());
+                params.push((z.clone(), Ty::Int));
+                Some(z)
+            } else {
+                None
+            };
+            tx.directives.push(Directive::Donation(q, z));
         }
     }
     if cfg.profile == Profile::Rich {
@@ -987,10 +1012,14 @@ fn gen_tx(t: &mut Tape, cfg: &GenCfg, p: &mut Program, k: usize) -> TxSpec {
                 } else {
                     None
                 };
+                // a version the directive does not know (0 is what `publish` calls a native script, 4 is
+                // nothing yet), possibly over bytes that are a well-formed native script
+                let odd = t.draw(12) == 11;
+                let (version_k, script) = if odd { (*t.pick(&[0u8, 4]), if t.chance(2, 3) { native_script(t.draw(6) as u8) } else { script }) } else { (if t.chance(1, 6) { *t.pick(&[3u8, 2, 1]) } else { version }, script) };
                 tx.directives.push(Directive::PlutusWitness {
-                    version: if t.chance(1, 6) { *t.pick(&[3u8, 2, 1]) } else { version },
+                    version: version_k,
                     script,
-                    script_param,
+                    script_param: if odd { None } else { script_param },
                 });
             }
         }
@@ -1275,7 +1304,7 @@ fn gen_datum(t: &mut Tape, cfg: &GenCfg, p: &mut Program, tx: &TxSpec, params: &
         }
     } else if t.chance(1, 4) {
         p.has_misc = true;
-        let shape = t.draw(4) as u8;
+        let shape = t.draw(5) as u8;
         let q = small_q(t, params, "x");
         let bytes = if t.chance(1, 2) {
             let name = format!("db{}", params.len());
@@ -1544,6 +1573,11 @@ pub fn gen_args(t: &mut Tape, p: &Program, tx: &TxSpec, chain: &SimChain, dist: 
     for (n, ty) in tx.params.iter().chain(p.env.iter()) {
         let key = n.to_lowercase();
         match ty {
+            Ty::Int if n.starts_with("zz") => {
+                // the filler of a compound directive field: always nothing
+                shown.insert(key.clone(), "0".to_string());
+                args.insert(key, ArgValue::Int(0));
+            }
             Ty::Int => {
                 let v = match dist {
                     ArgDist::Small => {
